@@ -483,9 +483,10 @@ Definition ks_den (delay alpha : Qc) (k : Z) : Qc :=
   (if (k =? left)%Z then - alpha * (1 - wr) else 0) +
   (if (k =? left + 1)%Z then - alpha * wr else 0).
 Definition ks_lm (delay : Qc) : nat := Z.to_nat (qceil delay).
-(* memory list of size exactly lm: first lm items, zero padded *)
+(* memory list of size exactly lm: first lm items; a shorter memory is zero padded on the LEFT
+   (zero_pad(memory, lm - actual_len) pads before) *)
 Definition ks_memory (lm : nat) (mem : list Qc) : list Qc :=
-  firstn lm mem ++ repeat 0 (lm - length (firstn lm mem)).
+  repeat 0 (lm - length (firstn lm mem)) ++ firstn lm mem.
 (* one output: m0 = (d0 + sum -(a_k) * m_k) / a_0, then shift *)
 Fixpoint ks_run (k : nat) (delay alpha : Qc) (mem : list Qc) : list Qc :=
   match k with
